@@ -109,12 +109,20 @@ def check_regex(soup, src, ctx):
         if len(got) != exp:
             return fail('regex-matches', 'search_regex(%r) yields %d matches, the text leaves contain %d'
                         % (pat, len(got), exp))
-        for m in got:
+        # exact oracle: the k-th reported match is the k-th match of the text
+        # leaves in document order, at leaf offset + match start (an offset
+        # where merely the same text occurs elsewhere is not accepted)
+        want = [(m.group(), t.position + m.start()) for t in leaves
+                for m in re.finditer(pat, str(t))]
+        for m, (wtext, wpos) in zip(got, want):
             ctx.count('regex_matches_checked')
             p = m.position
             if not isinstance(p, int) or src[p:p + len(m)] != str(m):
                 return fail('regex-offset', 'search_regex(%r): match %r reported at %r, source has %r'
                             % (pat, str(m), p, src[p:p + len(m)] if isinstance(p, int) else None))
+            if str(m) != wtext or p != wpos:
+                return fail('regex-offset', 'search_regex(%r): match %r reported at %r, it occurs at %r'
+                            % (pat, str(m), p, wpos))
     return None
 
 
